@@ -17,7 +17,11 @@ CLAIMED = {
         "tag assignment, header and directive layout (unbounded, kernel-checked, no axioms). The model's invert is tied to the code by exact AST "
         "equality with the real invertCffConstraint on every expression of depth<=2 over three tags plus seeded random deeper ones, by truth "
         "tables of whole headers pushed through the real writeInvertedCffTag, and by runs of the real cff on a multi-package layout: files written vs the extracted gen_filename (equal base names "
-        "in different directories, test files, -file=IN and -file=IN=OUT), directory snapshots, token-identical preservation of every declaration without directive, imports only added.",
+        "in different directories, test files, -file=IN and -file=IN=OUT), directory snapshots, token-identical preservation of every declaration without directive, imports only added. "
+        "Which files a run touches (FileSelModel = cmd/cff/main.go run): an output is written exactly for the selected files that compile and contain a directive (C16_written_exactly), a file --file does not name "
+        "by its exact base name is never written for (C16_unselected_untouched, C16_selected_by_exact_name), nothing is written for a rejected file (C16_rejected_not_written), the exit status is non-zero exactly when a selected file "
+        "failed or an input is repeated (C16_exit_status), without --file distinct files never share an output (C16_default_outputs_distinct); tied by running the real tool on the layout with a rejected file and six selections "
+        "and comparing exit status and directory snapshots with the extracted run_tool.",
         "Trusted: Coq kernel; extraction (ExtrOcamlBasic) + OCaml driver; Go's go/build/constraint (Parse, String, PlusBuildLines: oracle of the header "
         "theorem, validated per run) and gofmt; the harness. Token-level preservation by the real tool and the written paths are observed on runs of the "
         "real cff binary, not proved of the Go code.",
@@ -42,7 +46,8 @@ CLAIMED["C19"] = (SCHED_TECH,
     "C19_reports (every State ever emitted satisfies Pending = Ready + Waiting + executing, 0 <= executing <= Concurrency, IdleWorkers = Concurrency - "
     "executing, Concurrency = limit) and C19_stop (no report after the loop finished) for every run of the gated model; C19_refuted_ungated keeps the repaired "
     "defect as a witness. Tie: every State emitted by the real scheduler (flush down to 1ns) must equal the model's counters at that point of the replay in the gated model; an execution that only the ungated model "
-    "accepts is reported as an over-dispatch.",
+    "accepts is reported as an over-dispatch. The root package's adapter (scheduler.go: cff.NewScheduler -> schedulerAdapter.Emit), through which generated code and users receive the reports, "
+    "is tied to the model's atomic tick action: with a slow user emitter every log of loop events and emitter calls must read tick st; begin st; end st contiguously, nothing after Wait returned.",
     SCHED_NOTE + " C19_bounds adds Waiting >= 0, Pending <= submitted, Waiting <= submitted-with-dependencies for every report in every history.", "DESIGN.md §7 C19")
 CLAIMED["C01"] = (SCHED_TECH,
     "C01_order_once: in every history of every run (any DAG incl. duplicate dependencies and dependencies already finished at enqueue time, any N, both error "
@@ -89,9 +94,12 @@ CLAIMED["C14"] = (
     "distance, every Params value and task output is consumed, outputs empty exactly for Invoke tasks; the provider walk always terminates within its fuel (C14_walk_terminates); the individual checks are equivalent to their declarative "
     "rules (C14_dup_params, C14_invoke, C14_dup_provider, C14_unused_output, C14_cycle). Types are atoms; Slice/Map assignability is C14_parallel (C14_assign_refuted keeps the repaired defect F2 as witness). Tie: accept/reject, "
     "diagnostic classes and presence of the output file of the real cff against the model and against the independent boolean rules wf_b, one flow per file; Slice/Map element/key/value types against a lattice of assignable and "
-    "non-assignable pairs in both directions.",
+    "non-assignable pairs in both directions; the exit status of the run must be non-zero exactly when a file was rejected. Signatures (SignatureModel = compileFunction/compilePredicate/FallbackWith/Invoke rules): a signature is "
+    "accepted iff it is not variadic, context.Context occurs only as first parameter and error only as last result (C14_supported_signatures, C14_refusal_reasons); for every accepted one the generated call's arguments and bindings are "
+    "exactly the function's parameter and result lists (C14_call_matches_signature); an accepted predicate has the single bool output and no error (C14_predicate_shape); an accepted task has one FallbackWith value per output and can fail, "
+    "and Invoke(true) exactly when it has no outputs (C14_accepted_task). Tie: single-task flows over random signatures, verdict and diagnostic classes against the model, accepted outputs built.",
     "Trusted: Coq kernel; extraction + driver; the flow generator (its abstract program is the model's input and the Go text the tool's input); go/types identity and "
-    "assignability are Go library code (types are atoms in the model); unsupported signatures are outside the model.", "DESIGN.md §7 C14")
+    "assignability are Go library code (types are atoms in the model, except context.Context, error, bool); assignability of FallbackWith values is not modelled.", "DESIGN.md §7 C14")
 
 GEN_TECH = "Coq proof about an executable semantics of cff.Flow (what a directive computes as a function of what each user function does) + correspondence: generated programs compiled by the real cff and executed under scenario tables, compared call by call with the extracted model"
 GEN_NOTE = ("Trusted: Coq kernel; extraction + driver; the program generator (the abstract flow is the model's input, its Go rendering the tool's input) and the harness stubs; "
